@@ -37,7 +37,7 @@ SCHED = st.lists(st.tuples(st.integers(0, 999), st.sampled_from(['force', 'force
 
 
 def strategy(tier):
-    w = {'mixed': 5, 'growshrink': 2, 'deep': 2, 'links': 3, 'boot': 3, 'hybrid': 2, 'bootlinks': 1, 'readd': 4}
+    w = {'mixed': 5, 'growshrink': 2, 'deep': 2, 'links': 3, 'boot': 3, 'hybrid': 2, 'bootlinks': 1, 'readd': 4, 'twoboots': 2}
     return st.tuples(gen.any_profile(reopen_ok=False, weights=w),
                      st.lists(st.tuples(SCHED, st.booleans()), min_size=2, max_size=2))
 
